@@ -22,14 +22,14 @@ import (
 )
 
 type sigDef struct {
-	name   string
-	kind   string // ecdsa mldsa slhdsa pss
-	params func() (key.Parameters, error)
-	draw   int    // bytes of entropy one Sign call consumes
-	slow   bool
-	subtle bool   // ECDSA through signature/subtle
-	inst   int    // ML-DSA instance
-	hash   string // PSS
+	name    string
+	kind    string // ecdsa mldsa slhdsa pss
+	params  func() (key.Parameters, error)
+	draw    int // bytes of entropy one Sign call consumes
+	slow    bool
+	subtle  bool   // ECDSA through signature/subtle
+	inst    int    // ML-DSA instance
+	hash    string // PSS
 	variant ref.Variant
 }
 
@@ -77,7 +77,9 @@ func sigDefs() []sigDef {
 	for _, c := range compositeSets {
 		c := c
 		out = append(out, sigDef{name: "COMPOSITE_" + c.name + "/TINK", kind: "composite", draw: c.draw, variant: ref.Tink,
-			params: func() (key.Parameters, error) { return compositemldsa.NewParameters(c.alg, c.inst, compositemldsa.VariantTink) }})
+			params: func() (key.Parameters, error) {
+				return compositemldsa.NewParameters(c.alg, c.inst, compositemldsa.VariantTink)
+			}})
 	}
 	for _, ht := range []slhdsa.HashType{slhdsa.SHA2, slhdsa.SHAKE} {
 		for _, ks := range []int{64, 96, 128} {
